@@ -287,6 +287,24 @@ def run(M, rec, tier, seed, k, n):
     except Inconclusive as e:
         rec.inconclusive_because(str(e))
         return
+    # scripted histories: one per expected outcome (so every run exercises every reason)
+    scripted = [
+        [("compile", None)],
+        [("netstep", None), ("compile", None)],
+        [("netstep", None), ("add_ramp", None), ("compile", None)],
+        [("init", 0), ("init", 1), ("init", 2), ("init", 3), ("init", 4), ("compile", None)],
+        [("netstep", None), ("init", 1), ("compile", None)],
+        [("netstep", None), ("replace_origin", None), ("init", 3), ("stepel", 3), ("compile", None)],
+        [("netstep", None), ("replace_link", None), ("netstep", None), ("add_branch", None), ("netstep", None), ("compile", None)],
+        [("netstep", None), ("reinit_same", 0), ("compile", None)],
+    ]
+    for j, seq in enumerate(scripted):
+        for st in ("SX", "MX"):
+            W_ = World(M, st, rng)
+            for op, arg in seq:
+                if not apply(W_, rec, op, arg):
+                    break
+            rec.count("scripted_histories")
     # exhaustive short histories over a reduced alphabet, ending with compile
     small = [("netstep", None), ("init", 0), ("init", 1), ("init", 4), ("stepel", 0), ("stepel", 1), ("stepel", 3),
              ("add_ramp", None), ("replace_origin", None), ("add_branch", None), ("replace_link", None), ("reinit_same", 0)]
